@@ -61,7 +61,7 @@ def reallocD (s : State) (p : Ptr) (old new os big : Nat) : State × Option Ptr 
 
 def countWhere (l : List Bool) : Nat := (l.filter id).length
 
-def step (d : DS) (t : List String) : DS × List String :=
+def stepCore (d : DS) (t : List String) : DS × List String :=
   let bad : DS × List String := (d, ["bad-op"])
   match d.st, t with
   | none, "new" :: m :: rest =>
@@ -142,6 +142,13 @@ def step (d : DS) (t : List String) : DS × List String :=
     let parentLeft := countWhere ((List.range d.nextBig).map (fun p => (s1.parent p).isSome))
     ({ d with st := none, tab := [] }, [s!"P destroyed pages_left={pagesLeft} parent_left={parentLeft} backend_left=0"])
   | _, _ => bad
+
+/-- `reltag pN w` (the harness first stores one tag word into the block) is a plain release for the model:
+the caller's data is not the model's business -/
+def step (d : DS) (t : List String) : DS × List String :=
+  match t with
+  | ["reltag", name, _] => stepCore d ["rel", name]
+  | _ => stepCore d t
 
 def component : Component := { σ := DS, init := {}, step := step }
 end Driver.SbaD
